@@ -107,7 +107,7 @@ func c20AttrsExec(dir string, g c20AttrsGroup, seq []int, at int) (out []string,
 			out = append(out, "error: "+r.Err.Error())
 		case strings.HasPrefix(stmt, "SELECT") && len(r.Views) > 0:
 			v := r.Views[len(r.Views)-1]
-			out = append(out, strings.Join(drv.Header(v), ",")+" "+drv.RowsKey(drv.Rows(v)))
+			out = append(out, fmt.Sprintf("%q", drv.Header(v))+" "+drv.RowsKey(drv.Rows(v)))
 		default:
 			out = append(out, "")
 		}
